@@ -51,15 +51,21 @@ theorem rotr_mod64 (x y : BitVec 64) :
     rw [BitVec.toNat_sub, BitVec.toNat_umod]; simp; omega
   rw [e2, e1, BitVec.shiftLeft_eq', BitVec.ushiftRight_eq']
 
+theorem ctz_zero32 : Wasm.ctz (0#32) = 32#32 := by decide
+theorem ctz_zero64 : Wasm.ctz (0#64) = 64#64 := by decide
+
 macro "c03_simp" : tactic => `(tactic|
   simp [-BitVec.shiftLeft_eq', -BitVec.ushiftRight_eq', -BitVec.sshiftRight_eq',
-    Full0, Full1, Full2, Full3, Partial1, Partial2, Sound1, Sound2, expect,
+    Full0, Full1, Full2, Full3, Partial1, Partial2, Sound1, Sound2, expect_some, expect_none, expect_ite, ctzBV, ctz_zero32, ctz_zero64,
     wBin, wRel, wEqz, wUn, wWrap, wExtS, wExtU, wSelect, wConst, binop, relop, b2i, Wasm.unop,
     shl_mod32, shl_mod64, ushr_mod32, ushr_mod64, sshr_mod32, sshr_mod64, rotl_mod32, rotr_mod32, rotl_mod64, rotr_mod64,
     Guard.addOk, Guard.subOk, Guard.mulOk, Guard.divS, Guard.divU, Guard.cnt32, Guard.shlRepr, Guard.shl32, Guard.shl64,
     Guard.rotl32, Guard.rotr32, Guard.rotl64, Guard.rotr64,
+    Res.bind_ok, Res.bind_ub, Res.bind_stuck, Res.map_ok, Res.map_ub, Res.map_stuck, Res.andThen_ok, Res.andThen_ub, Res.andThen_stuck,
+    finish_inl, finish_inr, seqSt_inl, seqSt_inr, orUB_some, orUB_none, orStuck_some, orStuck_none, Res.map_ite, orUB_ite, Res.bind_ite, Res.andThen_ite, finish_ite, seqSt_ite, conv_ite, castTo_ite,
+    ty_ite, isZero_ite, wide_ite, writeL_ite,
     crun, cexec, ceval, look, writeL, CVal.ty, conv, uac, arith, sarith, uarith, scmp, ucmp, shiftOp, sshl, cunop, builtin,
-    castTo, CExpr.ty, CastTy.ty, litVal, b2c, CVal.isZero, CVal.wide, CVal.count, BinOp.isShift, BinOp.isCmp, Res.map])
+    castTo, CExpr.ty, CastTy.ty, litVal, b2c, CVal.isZero, CVal.wide, CVal.count, BinOp.isShift, BinOp.isCmp])
 
 /-- rows: after symbolic execution a bit-vector statement (possibly under `if`s for the UB / trap conditions) remains -/
 macro "c03_tac" : tactic => `(tactic|
